@@ -17,6 +17,7 @@ from vmon.bridge import build_tx, model_of_tx, script_raw_from_fields
 from vmon.core import outcome
 
 PROPERTY_ID = "C06"
+REPO_TEST_MODULES = ["test_tx", "test_script", "test_taproot", "test_musig", "test_psbt"]  # thorough tier: run as an extra workload under the contracts
 RULE = (
     "cases = (spend type, wallet, transaction, mutation) tuples: a library-signed spend (positive) or a mutated copy "
     "classified unauthorised by the reference analyser (negative, carrying that classification as its proof); each is "
